@@ -35,7 +35,7 @@ PROP = "C20"
 MODNAME = __name__
 
 KINDS = ["entry", "string", "preamble", "ecomment", "icomment"]
-RETURNS = ["same", "none", "empty-list", "empty-tuple", "list1", "list2", "tuple3", "generator", "object", "int0", "false", "list-with-nonblock", "str", "dict", "rename-same", "tag", "subclass", "library"]
+RETURNS = ["same", "none", "empty-list", "empty-tuple", "list1", "list2", "tuple3", "deque2", "dict-values1", "empty-deque", "generator", "object", "int0", "false", "list-with-nonblock", "str", "dict", "rename-same", "tag", "subclass", "library"]
 
 
 def kind_of(b):
@@ -95,6 +95,18 @@ def make_result(ret, b):
     if ret == "tuple3":
         c1, c2 = _clone(b, 1), _clone(b, 2)
         return (c1, b, c2), [c1, b, c2]
+    # the documented result type is Collection[Block]: sized iterable containers other than list / tuple count too
+    if ret == "deque2":
+        import collections
+
+        c = copy.deepcopy(b)
+        return collections.deque([b, c]), [b, c]
+    if ret == "empty-deque":
+        import collections
+
+        return collections.deque(), []
+    if ret == "dict-values1":
+        return {"only": b}.values(), [b]
     if ret == "generator":
         return (x for x in [b]), "TypeError"
     if ret == "object":
@@ -180,7 +192,7 @@ class RawBlockProbe(BlockMiddleware):
         return make_result(self.rets.get(kind_of(block), "same"), block)[0]
 
 
-FAILED_RETURNS = ["same", "none", "empty-list", "empty-tuple", "list1", "list2", "generator", "object", "int0", "false", "list-with-nonblock", "str", "dict", "library"]
+FAILED_RETURNS = ["same", "none", "empty-list", "empty-tuple", "list1", "list2", "deque2", "generator", "object", "int0", "false", "list-with-nonblock", "str", "dict", "library"]
 
 
 def raw_block_probe_reference(rets, library):
